@@ -26,7 +26,8 @@ VARIANT_NAMES = ["VariantA", "VariantB", "VariantC"]
 
 NESTED_WORD = re.compile(r"\.parsed\.Ok\.0\[\d+\]\.Meta\.0\.List\.0\.tokens\.parsed\.Ok\.0\[\d+\]\.Meta\.0\.path\.segments\[0\]\.ident$")
 TOP_ITEM = re.compile(r"\.attrs\[\d+\]\.meta\.List\.0\.tokens\.parsed\.Ok\.0\[\d+\]\.Meta\.0\.path\.segments\[0\]\.ident$")
-WORDS = ["any", "struct_named", "struct_any", "struct_newtype", "enum_unit", "enum_tuple", "struct_struct_named", "enum_enum_any", "struct_bogus", "enum_", "bogus", "doc"]
+WORDS = ["any", "struct_named", "struct_any", "struct_newtype", "enum_unit", "enum_tuple", "struct_struct_named", "enum_enum_any", "struct_bogus", "enum_", "bogus", "doc",
+         "named", "newtype", "unit"]
 
 
 class Focus:
